@@ -714,3 +714,163 @@ func runC14Lock(rc *RunCtx) *simkit.Violation {
 	}
 	return nil
 }
+
+func init() {
+	Register(&Scenario{Prop: "C14", Name: "purge-cycles", Strict: false, Quick: 3, Thorough: 4, Run: func(rc *RunCtx) *simkit.Violation { return runPurgeCycles(rc, "C14") }})
+	Register(&Scenario{Prop: "C13", Name: "purge-cycles", Strict: false, Quick: 2, Thorough: 3, Run: func(rc *RunCtx) *simkit.Violation { return runPurgeCycles(rc, "C13") }})
+}
+
+// runPurgeCycles: the operator purges periodically - build the index, delete unused, weeks later again - and, unless
+// told otherwise, every command works in the same local directory (datamon's default is a fixed relative path). Fault
+// free: after every cycle the index is exactly the referenced keys, exactly the unreferenced old blobs are gone and
+// every bundle downloads.
+func runPurgeCycles(rc *RunCtx, prop string) *simkit.Violation {
+	w := rc.W
+	t := w.W
+	d := newDM(rc)
+	p := &pWorld{prop: prop, rc: rc, d: d, leaf: 64}
+	main := &purgeCtx{name: "main", meta: d.Meta, vmeta: d.VMet, repos: map[string]*mRepo{}}
+	p.ctxs = []*purgeCtx{main}
+	for i := 0; i < 6; i++ {
+		p.pool = append(p.pool, append([]byte(fmt.Sprintf("pool %d ", i)), t.Bytes(t.Pick(0, 10, 64, 100, 150))...))
+	}
+	setup := w.Client("setup")
+	for _, rn := range []string{"ra", "rb"}[:t.Range(1, 2)] {
+		tk, v := doOp(prop, w, setup, "create-repo", func() (interface{}, error) {
+			return nil, core.CreateRepo(model.RepoDescriptor{Name: rn, Description: "d", Contributor: contributor}, p.stores(setup, main))
+		})
+		if v != nil {
+			return v
+		}
+		if tk.Err != nil {
+			return Viol(prop, "harness", "create-repo", rn, "%v", tk.Err)
+		}
+		main.repos[rn] = &mRepo{Name: rn, Labels: map[string]string{}}
+	}
+	nUp := 0
+	history := func(nOps int) *simkit.Violation {
+		for i := 0; i < nOps; i++ {
+			rns := sortedKeys(main.repos)
+			r := main.repos[rns[t.Choose(len(rns))]]
+			if len(r.Bundles) > 0 && t.Bool(1, 3) {
+				victim := r.Bundles[t.Choose(len(r.Bundles))]
+				tk, v := doOp(prop, w, setup, "delete-bundle", func() (interface{}, error) { return nil, core.DeleteBundle(r.Name, p.stores(setup, main), victim.ID) })
+				if v != nil {
+					return v
+				}
+				if tk.Err != nil {
+					return Viol(prop, "harness", "delete-bundle", r.Name, "%v", tk.Err)
+				}
+				r.remove(victim.ID)
+				continue
+			}
+			nUp++
+			tr := p.drawTreeFromPool(t, fmt.Sprintf("u%d", nUp), t.Bool(1, 3))
+			tk, v := doOp(prop, w, setup, "upload", p.uploadTo(setup, main, r.Name, tr))
+			if v != nil {
+				return v
+			}
+			if tk.Err != nil {
+				return Viol(prop, "harness", "upload", r.Name, "%v", tk.Err)
+			}
+			r.Bundles = append(r.Bundles, &mBundle{ID: tk.Result.(*core.Bundle).BundleID, Tree: tr, Leaf: p.leaf})
+		}
+		return nil
+	}
+	if v := history(t.Range(2, 5)); v != nil {
+		return v
+	}
+	sameDir := t.Bool(2, 3)
+	chunk := uint64(t.Pick(1, 2, 3, 50, 500000))
+	cycles := t.Range(2, 3)
+	w.Note("%d purge cycles, same local directory for every command: %v, chunk size %d", cycles, sameDir, chunk)
+	for cy := 1; cy <= cycles; cy++ {
+		time.Sleep(time.Duration(t.Range(1, 48)) * time.Hour)
+		ref := map[string]bool{}
+		for _, r := range main.repos {
+			for _, b := range r.Bundles {
+				blobKeysOf(b.Tree, p.leaf, ref)
+			}
+		}
+		blobsBefore := d.Blob.Keys()
+		dir := func(cmd string) string {
+			if sameDir {
+				return filepath.Join(rc.Dir, "datamon-index")
+			}
+			return filepath.Join(rc.Dir, fmt.Sprintf("%s-%d", cmd, cy))
+		}
+		opts := func(cmd string) []core.PurgeOption {
+			return []core.PurgeOption{core.WithPurgeLogger(nopLog), core.WithPurgeLocalStore(dir(cmd)), core.WithPurgeIndexChunkSize(chunk), core.WithPurgeParallel(t.Pick(1, 4))}
+		}
+		bc := w.Client(fmt.Sprintf("purger-%d", cy))
+		bt, v := doOp(prop, w, bc, "build-index", func() (interface{}, error) { return core.PurgeBuildReverseIndex(p.stores(bc, main), opts("build")...) })
+		if v != nil {
+			return v
+		}
+		if pv := taskProblem(prop, bt, "PurgeBuildReverseIndex"); pv != nil {
+			return pv
+		}
+		if idx, _ := bt.Result.(*core.PurgeIndex); bt.Err != nil || idx == nil {
+			return Viol(prop, "purge-command-failed", "PurgeBuildReverseIndex", "", "cycle %d: the fault-free index build failed: %v", cy, bt.Err)
+		}
+		seen := map[string]int{}
+		for _, k := range main.meta.KeysWithPrefix(model.ReverseIndexPrefix()) {
+			sc := bufio.NewScanner(bytes.NewReader(main.meta.Peek(k).Data))
+			first := true
+			for sc.Scan() {
+				if first {
+					first = false
+					continue
+				}
+				seen[sc.Text()]++
+			}
+		}
+		if prop == "C14" {
+			for _, k := range sortedKeys(ref) {
+				if seen[k] == 0 {
+					return Viol(prop, "index-misses-key", "purge-cycles", k, "cycle %d (same local directory: %v): blob %s… is referenced by a bundle but is not in the index (%d keys indexed, %d referenced)", cy, sameDir, k[:10], len(seen), len(ref))
+				}
+			}
+			for _, k := range sortedKeys(seen) {
+				if !ref[k] {
+					return Viol(prop, "index-foreign-key", "purge-cycles", k, "cycle %d (same local directory: %v): the index lists %s… which no bundle references", cy, sameDir, k[:10])
+				}
+			}
+		}
+		time.Sleep(time.Duration(t.Range(1, 90)) * time.Minute)
+		dc := w.Client(fmt.Sprintf("deleter-%d", cy))
+		dt, v := doOp(prop, w, dc, "delete-unused", func() (interface{}, error) { return core.PurgeDeleteUnused(p.stores(dc, main), opts("delete")...) })
+		if v != nil {
+			return v
+		}
+		if pv := taskProblem(prop, dt, "PurgeDeleteUnused"); pv != nil {
+			return pv
+		}
+		if res, _ := dt.Result.(*core.PurgeBlobs); dt.Err != nil || res == nil {
+			return Viol(prop, "purge-command-failed", "PurgeDeleteUnused", "", "cycle %d: the fault-free delete-unused failed: %v", cy, dt.Err)
+		}
+		now := map[string]bool{}
+		for _, k := range d.Blob.Keys() {
+			now[k] = true
+		}
+		for _, k := range blobsBefore {
+			switch {
+			case ref[k] && !now[k]:
+				return Viol(prop, "purge-lost-data", "purge-cycles", k, "cycle %d (same local directory: %v): blob %s… is referenced by a bundle and was deleted", cy, sameDir, k[:10])
+			case prop == "C14" && !ref[k] && now[k]:
+				return Viol(prop, "unreferenced-blob-kept", "purge-cycles", k, "cycle %d (same local directory: %v): blob %s… is older than the index, referenced by no bundle, and still there after delete-unused", cy, sameDir, k[:10])
+			}
+		}
+		if v := p.checkDownloads(w.Client(fmt.Sprintf("observer-%d", cy)), fmt.Sprintf("purge cycle %d", cy), nil); v != nil {
+			return v
+		}
+		w.Probe("purge-cycle-completed")
+		if cy < cycles {
+			if v := history(t.Range(1, 4)); v != nil {
+				return v
+			}
+		}
+	}
+	w.Probe("nontrivial")
+	return nil
+}
